@@ -1060,7 +1060,8 @@ func RunSession(s Session) mon.Result {
 	for t := range tagset {
 		tags = append(tags, t)
 	}
-	nontrivial := obs["requests_seen"] >= 3 && (critA || critB || critC)
+	critD := s.Profile == "forced" && obs["reply_filed_while_caller_held"] > 0 && obs["success_verified"] > 0
+	nontrivial := obs["requests_seen"] >= 3 && (critA || critB || critC || critD)
 	return mon.Result{Verdict: mon.Held, NonTrivial: nontrivial, Obs: obs, Tags: tags,
 		Sample: map[string]interface{}{
 			"config":    fmt.Sprintf("v=%s echo=%v noechomark=%v seg=%s/%d profile=%s", s.Version, s.Echo, s.NoEchoMark, s.Seg.Mode, s.Seg.Size, s.Profile),
@@ -1132,7 +1133,7 @@ func init() {
 			"caller's 150 ms deadline, channel read delay default..50 ms; the straddling call is judged only as own-reply-or-timeout); x {1.0,1.1} x {no echo, echo with marks, echo sharing reads with the reply} x segmentation " +
 			"(fixed 1,3,17,4096, whole, geom, mix) x chunkings of 1.1 replies (incl. boundaries inside message-id=\"...\") x bodies that quote a foreign message-id=\"N\" as text. " +
 			"Non-trivial = the server saw >=3 requests and (a late reply had been delivered in full before a later call returned, or a verified success " +
-			"followed a timed-out call, or a verified success whose reply had a chunk boundary inside the message-id attribute). Distinct = descriptor hash.",
+			"followed a timed-out call, or a verified success whose reply had a chunk boundary inside the message-id attribute, or a forced schedule in which the reply was filed while the caller was held before its wait). Distinct = descriptor hash.",
 		Assumptions: []string{
 			"one transport read never carries bytes of two server messages (message marks after every reply and every released late reply; quantifier of C08); " +
 				"the echo of the client's own request is not a server message: in half of the echoing sessions it carries no mark, so one read may hold the tail of the echo (delimiter, returns) and part or all of the reply that follows",
